@@ -334,8 +334,8 @@ impl SendRateComp {
                         self.send_rate = (self.send_rate/2).max(MINIMUM_RATE);
                     }
                 } else {
-                    // In slow start, but no feedback has been received.
-                    debug_assert!(self.nofeedback_idle == false);
+                    // In slow start, but no feedback has been received. (The sender may have been idle
+                    // since the previous expiry, there is no recover rate to compare against yet.)
 
                     // Halve send rate every RTO, subject to minimum
                     self.send_rate = (self.send_rate/2).max(MINIMUM_RATE);
